@@ -42,6 +42,7 @@ def run_cli(argv: Sequence[str]) -> CliResult:
         from verif_lib import components
 
         components.THE_ERROR.__traceback__ = None  # the singleton error must not keep the CLI's frames alive
+        components.EMPTY_ERROR.__traceback__ = None
     except Exception:
         pass
     gc.collect()
